@@ -9,7 +9,7 @@ import os
 import unicodedata
 
 from simkit.world import StopRun
-from ref import bip38 as rbip38, codec as rcodec, secp256k1 as rec
+from ref import bip38 as rbip38, codec as rcodec, hashes as rhashes, secp256k1 as rec
 
 PASSWORDS = ['TestingOneTwoThree', 'Satoshi', 'pässwörd', 'pässword', 'ϓ\u0000\U00010400\U0001f4a9',
              'correct horse battery staple', ' ', 'Ω']
@@ -135,7 +135,33 @@ class C15:
         compressed = ch.coin('compressed', 0.6)
         hd = ch.coin('hdkey', 0.3)
         w.op('encrypt', pw=pw, compressed=compressed, hdkey=hd)
-        if hd:
+        shape = 'random'
+        if not hd and ch.coin('shaped_key', 0.4):
+            # private keys with structure a byte-level slip would trip over (1 in 256 or rarer among random keys)
+            shape = ch.pick('key_shape', ['ends_01', 'ends_00', 'starts_00', 'starts_0000', 'one', 'n_minus_1', 'starts_80',
+                                          'ends_0101'])
+            b = bytearray(rhashes.sha256(b'c15 shaped %d' % ch.int('shape_seed', 0, 10 ** 6)))
+            if shape == 'ends_01':
+                b[-1] = 1
+            elif shape == 'ends_00':
+                b[-1] = 0
+            elif shape == 'ends_0101':
+                b[-2:] = b'\x01\x01'
+            elif shape == 'starts_00':
+                b[0] = 0
+            elif shape == 'starts_0000':
+                b[0:2] = b'\0\0'
+            elif shape == 'starts_80':
+                b[0] = 0x80
+            elif shape == 'one':
+                b = bytearray((1).to_bytes(32, 'big'))
+            elif shape == 'n_minus_1':
+                b = bytearray((rec.N - 1).to_bytes(32, 'big'))
+            secret = int.from_bytes(bytes(b), 'big')
+            ok, k, drawn = self.call('Key', lambda: K.Key(secret, network=self.network, compressed=compressed))
+            if ok and k.private_hex != bytes(b).hex():
+                return          # (the constructor read the number differently: not this property's business)
+        elif hd:
             wt = 'segwit' if compressed and ch.coin('hd_segwit', 0.5) else 'legacy'
             ok, k, drawn = self.call('HDKey', lambda: K.HDKey(network=self.network, compressed=compressed,
                                                               witness_type=wt))
@@ -143,9 +169,12 @@ class C15:
             ok, k, drawn = self.call('Key', lambda: K.Key(network=self.network, compressed=compressed))
         if not ok:
             return
-        if drawn < 32:
-            w.violation('no_entropy_drawn', {'api': 'HDKey()' if hd else 'Key()'}, 'new key drew %d bytes' % drawn)
-        self.record_fresh('new_key', {'private': k.private_hex})
+        if shape == 'random':
+            if drawn < 32:
+                w.violation('no_entropy_drawn', {'api': 'HDKey()' if hd else 'Key()'}, 'new key drew %d bytes' % drawn)
+            self.record_fresh('new_key', {'private': k.private_hex})
+        else:
+            w.probe('shaped_key:' + shape)
         ok, enc, _ = self.call('encrypt', lambda: k.encrypt(pw))
         if not ok:
             w.violation('encrypt_failed', {'hdkey': hd}, repr(enc))
@@ -261,8 +290,11 @@ class C15:
             if cls == 'HDKey' and wt == 'p2sh-segwit':
                 return rcodec.p2sh_p2wpkh_address(pub, self.network)
             return rcodec.p2pkh_address(pub, self.network)
-        if want_priv is not None and not enc.startswith('6Pf') and not enc.startswith('6Pg') and \
-                unicodedata.normalize('NFC', pw) != pw:
+        try:
+            plain_mode = rcodec.b58check_decode(enc)[1] == 0x42
+        except Exception:
+            plain_mode = False
+        if want_priv is not None and plain_mode and unicodedata.normalize('NFC', pw) != pw:
             # a plain-mode string of the library: made with the passphrase as typed (reported when it was made)
             pw = pw.encode('utf-8')
         try:
